@@ -2,6 +2,7 @@ import GrinVerif.Drv.Common
 import GrinVerif.Model.Crash
 import GrinVerif.Model.CrashCompact
 import GrinVerif.Model.CrashRecov
+import GrinVerif.Model.CrashZip
 /-! Driver glue for the `crash` domain (C09): the real step labels of a scenario are interpreted
 as model steps, the durable state at each crash point is computed by the model and `recover`
 predicts how the node reopens. -/
@@ -20,6 +21,8 @@ structure Scn where
   oldHHead : Nat := 0
   /-- the restart's crash-point labels, per first crash point -/
   rlabels : List (Nat × List String) := []
+  /-- head height at which the base state was compacted (scenarios on a compacted node) -/
+  compactedAt : Option Nat := none
 
 structure St where
   tbl : List BlkInfo := []
@@ -224,6 +227,31 @@ def predictSecond (st : St) (sc : Scn) (n m : Nat) : Option String := do
   | none => pure "recovery-steps-differ-from-model"
   | some d2 => pure (showRec (recover bcAT st.tbl d2))
 
+/-! ### state-sync install (`Model/CrashZip.lean`) -/
+
+def showRecZ : RecZ → String
+  | .openFail why => s!"open=err:{why.toString}"
+  | .ok h => s!"open=ok head=b{h}"
+
+def predictZip (st : St) (sc : Scn) (n : Nat) : Option String := do
+  let a ← sc.inputs.head?
+  let P ← pathOf st.tbl (st.tbl.length + 1) a []
+  let H ← pathOf st.tbl (st.tbl.length + 1) sc.oldHHead []
+  let g ← P.head?
+  let d0 := zipStart g H
+  -- the commit of txhashset_write: the last LMDB commit that follows the sandbox's kernel sync
+  let idx := (sc.labels.zipIdx.filter (fun p => p.1.startsWith "lmdb:after-commit(after:kernel/pmmr_prun.bin)")).getLast?.map (·.2 + 1)
+  let ic := idx.getD (sc.labels.length + 1)
+  let lab := (sc.labels[n - 1]?).getD ""
+  let steps : List ZStep :=
+    if lab.startsWith "emu.replace:clean-partial" then [.commit, .cleanPartial]
+    else if lab.startsWith "emu.replace:after-clean" then [.commit, .clean]
+    else if lab.startsWith "emu.replace:after-rename" then [.commit, .clean, .rename]
+    else if n < ic then []
+    else if n == ic then [.commit]
+    else [.commit, .clean, .rename]
+  pure (showRecZ (recoverZ bcAT st.tbl (steps.foldl (applyZStep P) d0)))
+
 /-- compare on the reopen class and head only -/
 def implClass (impl : String) : String :=
   match splitWs impl with
@@ -244,7 +272,8 @@ def handle (st : St) (args : List String) (impl : String) : St × Verdict :=
     let input := inputs.getLast?
     let old := ((kv (splitWs impl) "old").bind idOf).getD 0
     let oldhh := ((kv (splitWs impl) "oldhh").bind idOf).getD old
-    ({ st with scns := { name, kind, input, oldHead := old, inputs, oldHHead := oldhh } :: st.scns.filter (·.name != name) }, .ok)
+    let cat := (kv (splitWs impl) "compacted_at").bind (·.toNat?)
+    ({ st with scns := { name, kind, input, oldHead := old, inputs, oldHHead := oldhh, compactedAt := cat } :: st.scns.filter (·.name != name) }, .ok)
   | ["steps", name, labels] =>
     match st.scns.find? (·.name == name) with
     | some sc => ({ st with scns := { sc with labels := labels.splitOn "," } :: st.scns.filter (·.name != name) }, .ok)
@@ -257,13 +286,21 @@ def handle (st : St) (args : List String) (impl : String) : St × Verdict :=
   | ["case2", name, n, m, _label, _label2] =>
     match st.scns.find? (·.name == name), n.toNat?, m.toNat? with
     | some sc, some n, some m =>
-      if sc.kind == "compact" then
+      if sc.kind == "zip" then
+        -- the restart's own writes are not modelled for this scenario: the second restart must end
+        -- where the model's recovery of the first durable state ends
+        match predictZip st sc n with
+        | some p => (st, cmpModel p (implClass impl))
+        | none => (st, .unknown)
+      else if sc.kind == "compact" then
         -- compaction scenarios: the restart after a death inside the recovery must end where the
         -- model's recovery of the first durable state ends (the recovery's own writes are not
         -- modelled for the compaction files)
         match pathOf st.tbl (st.tbl.length + 1) sc.oldHead [] with
         | some oldPath =>
-          (st, cmpModel (predictCompact (fun h => decide (h ≥ 6)) st.tbl oldPath 20 20 10 sc.labels n) (implClass impl))
+          match sc.compactedAt with
+          | some c => (st, cmpModel (predictCompactAgain (fun h => decide (h ≥ 6)) st.tbl oldPath 20 20 10 c sc.labels n) (implClass impl))
+          | none => (st, cmpModel (predictCompact (fun h => decide (h ≥ 6)) st.tbl oldPath 20 20 10 sc.labels n) (implClass impl))
         | none => (st, .unknown)
       else if name.startsWith "compaction" then
         match predictCompacted st sc n with
@@ -276,12 +313,18 @@ def handle (st : St) (args : List String) (impl : String) : St × Verdict :=
   | ["case", name, n, _label] =>
     match st.scns.find? (·.name == name), n.toNat? with
     | some sc, some n =>
-      if sc.kind == "compact" then
+      if sc.kind == "zip" then
+        match predictZip st sc n with
+        | some p => (st, cmpModel p (implClass impl))
+        | none => (st, .unknown)
+      else if sc.kind == "compact" then
         -- compaction model (Model/CrashCompact.lean); AutomatedTesting: horizon 20, state sync
         -- threshold 20, archive interval 10
         match pathOf st.tbl (st.tbl.length + 1) sc.oldHead [] with
         | some oldPath =>
-          (st, cmpModel (predictCompact (fun h => decide (h ≥ 6)) st.tbl oldPath 20 20 10 sc.labels n) (implClass impl))
+          match sc.compactedAt with
+          | some c => (st, cmpModel (predictCompactAgain (fun h => decide (h ≥ 6)) st.tbl oldPath 20 20 10 c sc.labels n) (implClass impl))
+          | none => (st, cmpModel (predictCompact (fun h => decide (h ≥ 6)) st.tbl oldPath 20 20 10 sc.labels n) (implClass impl))
         | none => (st, .unknown)
       else if name.startsWith "compaction" then
         match predictCompacted st sc n with
